@@ -36,6 +36,8 @@ import Gen.Facts
 import Proofs.FormatCallLex
 import Proofs.FormatDeclLex
 
+import Proofs.FormatResLex
+
 namespace Props.C09
 open Martian.Format
 
@@ -509,5 +511,134 @@ theorem decl_near_misses :
       [0x20, 0x20, 0x20, 0x20, 0x6F, 0x75, 0x74, 0x20, 0x69, 0x6E, 0x74, 0x2C, 0x0A] := by decide +kernel
 
 end Declarations
+
+/-! ## The trailing clauses of a stage declaration: `src` line, `using (…)`, `retain (…)`
+
+Model: Martian/FormatRes.lean (`fmtGB` = `formatGB`, `fmtRes` = `Resources.format`, `fmtRetain` =
+`RetainParams.format`, `fmtSrc` = `SrcParam.format`; readers for `float_32` + `roundUpTo`,
+`resources`/`resource_list`, `stage_retain`, `src_stm`); tied to the real formatter and parser by
+harness/c09res.go on every run.  Each clause is stated for an arbitrary following text / token
+list, so that whole stage declarations can be assembled from them. -/
+section StageClauses
+open Martian.FormatExp Martian.FormatRes
+open Martian.FormatCall (tLP tRP)
+open Martian.Lexer (Bytes)
+
+/-- **formatGB round trip.**  For every `int64`-sized number of MB the text `formatGB` prints is
+exactly one numeric token (NUM_INT for a whole number of GB, NUM_FLOAT otherwise), also when a
+terminator byte (`,` …) and anything else follow, and reading the token back with
+`roundUpTo(·, 1024)` (exact decimal value, rounded away from zero) gives the same number of MB. -/
+theorem formatGB_roundtrip (mb : Int) (hb : mb.natAbs < 2 ^ 63) :
+    readGB (fmtGB mb) = some mb ∧ readGBTok (tokGB mb) = some mb ∧
+    (∀ c r, isTerm c = true → Martian.Lexer.numTok false (fmtGB mb ++ c :: r) =
+      if mb.natAbs % 1024 = 0 then .int (fmtGB mb) else .float (fmtGB mb)) :=
+  ⟨readGB_fmtGB mb hb, readGBTok_fmtGB mb hb,
+    fun c r hc => by rw [numTok_append _ c r hc]; exact numTok_fmtGB mb hb⟩
+
+/-- non-vacuity: 1.5 GB, -1/1024 GB (`-0.0009`), 307/1024 GB (`0.299`), 0, the largest value -/
+example : fmtGB 1536 = [0x31, 0x2E, 0x35] ∧ fmtGB (-1) = [0x2D, 0x30, 0x2E, 0x30, 0x30, 0x30, 0x39] ∧
+    fmtGB 307 = [0x30, 0x2E, 0x32, 0x39, 0x39] ∧ fmtGB 0 = [0x30] ∧ readGB (fmtGB 307) = some 307 ∧
+    readGB (fmtGB (2 ^ 63 - 1)) = some (2 ^ 63 - 1) ∧
+    readGB [0x31, 0x65, 0x2D, 0x35] = some 1 ∧                -- 1e-5 rounds up to 1/1024
+    readGB [0x2D, 0x30, 0x2E, 0x30] = some 0 := by decide +kernel
+
+/-- **F25 (known finding), negative witness.**  `int64(gb*1024)` overflows for `gb ≥ 2^53`
+(amd64: the conversion yields `MinInt64`): a huge positive value is printed as a negative number,
+a huge negative one as `--9007199254740992`, which is not even a token.  Below `2^63` MB the Go
+arithmetic is the exact one. -/
+theorem formatGB_overflow :
+    fmtGBgo (2 ^ 63) = [0x2D, 0x39, 0x30, 0x30, 0x37, 0x31, 0x39, 0x39, 0x32, 0x35, 0x34, 0x37, 0x34,
+      0x30, 0x39, 0x39, 0x32] ∧
+    readGB (fmtGBgo (2 ^ 63)) = some (-(2 ^ 63)) ∧
+    fmtGBgo (-(2 ^ 63)) = 0x2D :: fmtGBgo (2 ^ 63) ∧
+    Martian.Lexer.numTok false (fmtGBgo (-(2 ^ 63))) = .nomatch ∧
+    readGB (fmtGBgo (-(2 ^ 63))) = none ∧
+    (∀ x : Int, x.natAbs < 2 ^ 63 → fmtGBgo x = fmtGB x) :=
+  ⟨by decide +kernel, by decide +kernel, by decide +kernel, by decide +kernel, by decide +kernel,
+    fmtGBgo_eq⟩
+
+/-- **Resources.**  For every well-formed `Resources` (values of `int64` size, `special` valid
+UTF-8, `threads` a NUM_FLOAT in the float32 range or a canonical NUM_INT; any subset of the five
+entries, including none): the printed block, followed by any text, lexes as `) using (` + its
+entries and then the tokens of that text; and `resources` reads these tokens, closed by `)`, back
+as the same `Resources`, leaving what follows.  (The printed order is the canonical one, so the
+result is identical, not just equal up to a normal form; printing it again gives the same text.) -/
+theorem parse_format_resources (r : Res) (hw : wfRes r = true) :
+    (∀ rest, lexAll (fmtRes r ++ rest) = (lexAll rest).map (toksRes r ++ ·)) ∧
+    toksRes r = tRP :: .id sUsing :: tLP :: toksResBody r ∧
+    (∀ ts, pResources (.id sUsing :: tLP :: (toksResBody r ++ tRP :: ts)) = some (some r, ts)) :=
+  ⟨fun rest => lexOK_fmtRes r hw rest trivial, rfl, pResources_toks r hw⟩
+
+/-- **Retain.** -/
+theorem parse_format_retain (ids : List Bytes) (hw : wfRetain ids = true) :
+    (∀ rest, lexAll (fmtRetain ids ++ rest) = (lexAll rest).map (toksRetain ids ++ ·)) ∧
+    toksRetain ids = tRP :: .id sRetain :: tLP :: toksRetainBody ids ∧
+    (∀ ts, pRetain (.id sRetain :: tLP :: (toksRetainBody ids ++ tRP :: ts)) = some (some ids, ts)) :=
+  ⟨fun rest => lexOK_fmtRetain ids hw rest trivial, rfl, pRetain_toks ids⟩
+
+/-- **The src line**, whatever the two column widths handed down by `Stage.format`: the reader
+gives back the language, the path and the arguments (`strings.Fields` inverts the
+`strings.Join(·, " ")` of the printer on fields without white space). -/
+theorem parse_format_src (mw tw : Nat) (lang : Lang) (path : Bytes) (args : List Bytes)
+    (hw : wfSrc path args = true) :
+    (∀ rest, lexAll (fmtSrc mw tw lang path args ++ rest) =
+      (lexAll rest).map (toksSrc lang path args ++ ·)) ∧
+    (∀ ts, pSrc (toksSrc lang path args ++ ts) = some ((lang, path, args), ts)) :=
+  ⟨fun rest => lexOK_fmtSrc mw tw lang path args hw rest trivial, pSrc_toks lang path args hw⟩
+
+/-- **Both clauses and the closing parenthesis** (a stage that is not split), before a token list
+that does not itself begin with `using`/`retain`. -/
+theorem parse_format_stage_tail (res : Option Res) (ret : Option (List Bytes))
+    (hw1 : (match res with | some r => wfRes r | none => true) = true)
+    (hw2 : (match ret with | some ids => wfRetain ids | none => true) = true) :
+    (∀ rest, lexAll (fmtTail res ret ++ rest) = (lexAll rest).map (toksTail res ret ++ ·)) ∧
+    (∀ ts, NotId sUsing ts → NotId sRetain ts →
+      pTail (toksTail res ret ++ ts) = some ((res, ret), ts)) :=
+  ⟨fun rest => lexOK_fmtTail res ret hw1 hw2 rest trivial, pTail_toks res ret hw1⟩
+
+/-- **A whole declaration**: the text of a stage without parameters carrying all three clauses
+reads back as the same stage; hence formatting is idempotent on it. -/
+theorem parse_format_stage0 (s : Stage0) (hw : wfStage0 s = true) :
+    parseStage0 (fmtStage0 s) = some s ∧
+    (∀ s', parseStage0 (fmtStage0 s) = some s' → fmtStage0 s' = fmtStage0 s) := by
+  refine ⟨parseStage0_fmtStage0 s hw, ?_⟩
+  intro s' h
+  rw [parseStage0_fmtStage0 s hw] at h
+  injection h with h
+  rw [h]
+
+/-- non-vacuity: a well-formed stage with `exec`, two arguments, all five resources and two
+retained ids; the padding (`mem_gb   =`, `special  =`) and the fixed order -/
+example :
+    let s : Stage0 := ⟨[0x53], .exec, [0x61, 0x2E, 0x70, 0x79], [[0x2D, 0x78], [0x79]],
+      some ⟨some (-1537), some [0x68, 0x69], some [0x31, 0x65, 0x2B, 0x30, 0x36], some 1024, some true⟩,
+      some [[0x61], sRetain]⟩
+    wfStage0 s = true ∧ (pStage0 (toksStage0 s) == some s) = true ∧
+    (fmtRes ⟨some 1536, none, some [0x32], none, some false⟩ ==
+      sUsingOpen ++ indent ++ sMemGb ++ [0x20, 0x20] ++ sEq ++ [0x31, 0x2E, 0x35] ++ sEnd ++
+        indent ++ sThreads ++ [0x20] ++ sEq ++ [0x32] ++ sEnd ++
+        indent ++ sVolatile ++ sEq ++ sFalse ++ sEnd) = true ∧
+    fmtRes {} = sUsingOpen ∧ wfRes {} = true := by decide +kernel
+
+/-- Negative witnesses: entries in any order and repeated are accepted and the last value wins
+(`threads = 1, mem_gb = 1, threads = 2,`), `memgb` is `mem_gb`; `volatile = true`, a string for
+`threads`, an identifier for `special`, a missing comma and a float beyond the float32 range are
+rejected; an empty command and a command of blanks are rejected; a field with a no-break space
+is not well-formed (it would be split) -/
+theorem stage_clause_near_misses :
+    pResList [.id sThreads, .punct 0x3D, .int [0x31], .punct 0x2C, .id sMemgb, .punct 0x3D, .int [0x31],
+      .punct 0x2C, .id sThreads, .punct 0x3D, .int [0x32], .punct 0x2C, .punct 0x29] {} =
+      some (⟨some 1024, none, some [0x32], none, none⟩, []) ∧
+    pResList [.id sVolatile, .punct 0x3D, .kTrue, .punct 0x2C, .punct 0x29] {} = none ∧
+    pResList [.id sThreads, .punct 0x3D, .str [0x22, 0x32, 0x22], .punct 0x2C, .punct 0x29] {} = none ∧
+    pResList [.id sSpecial, .punct 0x3D, .id [0x78], .punct 0x2C, .punct 0x29] {} = none ∧
+    pResList [.id sMemGb, .punct 0x3D, .int [0x31], .punct 0x29] {} = none ∧
+    pResList [.id sMemGb, .punct 0x3D, .float [0x31, 0x65, 0x34, 0x30], .punct 0x2C, .punct 0x29] {} = none ∧
+    readCmd [0x22, 0x22] = none ∧ readCmd [0x22, 0x20, 0x20, 0x22] = none ∧
+    pRetainList [.id [0x61], .punct 0x29] = none ∧
+    wfField [0x78, 0xC2, 0xA0, 0x79] = false ∧
+    fieldsU [0x78, 0xC2, 0xA0, 0x79, 0x09, 0x7A] = [[0x78], [0x79], [0x7A]] := by decide +kernel
+
+end StageClauses
 
 end Props.C09
